@@ -156,6 +156,7 @@ struct World
     std::vector<ReadyRec> readys;
     bool poisoned = false;
     bool book_loaded_nonempty = false;
+    std::string log_path;
 
     // scheduler
     Rng sched_rng, aux_rng;
